@@ -543,8 +543,15 @@ class Tracer:
         if self._reset_called:
             # flags below are post-reset; the pre-reset flags are not observable any more except through the summary
             d["postReset"] = True
-        d["statKeys"] = [digest("|".join(hexf(v) if isinstance(v, (float, np.floating)) else str(v) for v in out.final_stats.iloc[j].tolist()))
-                         for j in range(len(out.final_stats))]
+        def _sv(v):          # by value: the table's column types may change when a row is appended (int -> float -> object)
+            if isinstance(v, (bool, np.bool_)):
+                return str(bool(v))
+            if isinstance(v, (int, float, np.integer, np.floating)):
+                return hexf(float(v))
+            if hasattr(v, "toordinal"):
+                return str(v.toordinal())
+            return str(v)
+        d["statKeys"] = [digest("|".join(_sv(v) for v in out.final_stats.iloc[j].tolist())) for j in range(len(out.final_stats))]
         if len(out.final_stats) > 0:
             last = out.final_stats.iloc[-1]
             d["lastStat"] = {"season": int(last.iloc[0]), "harvDate": ordinal(last.iloc[2]), "step": int(last.iloc[3]),
